@@ -200,3 +200,60 @@ def _root_coro_run(ex, st, args, kwargs, fn):
 
 assumed.FOLD_RESULT["AhbExpressionTransformer"] = _root_coro
 assumed.LIBRARY["ahb-root-coro()"] = _root_coro_run
+
+
+# ---- gather_if_necessary: own body, bounded by length (all awaitability patterns, symbolic contents) -------------------------
+import itertools as _it  # noqa: E402
+
+from pyvc.contracts import Raw as _Raw  # noqa: E402
+
+
+def _mixed_list(pattern):
+    def mk(ex, st, name):
+        items = []
+        for k, is_aw in enumerate(pattern):
+            res = ahb_result().make(ex, st, f"{name}[{k}]")
+            items.append(CoroV(Opaque("item-coro", {"result": res}), [], {}) if is_aw else res)
+        return ex.alloc(st, ListObj(L.LT.of(items)))
+    return _Raw(mk)
+
+
+def _item_run(ex, st, args, kwargs, fn):
+    return [ex.raise_(st.fork(), "Exception", None), (st, fn.data["result"])]
+
+
+assumed.LIBRARY["item-coro()"] = _item_run
+
+
+def _isawaitable(ex, st, args, kwargs, fn):
+    from pyvc.values import sv_bool
+    assumed.used(ex, "A-STDLIB inspect.iscoroutinefunction / isawaitable are pure predicates")
+    return [(st, sv_bool(isinstance(args[0], CoroV)))]
+
+
+assumed.LIBRARY["inspect.isawaitable"] = _isawaitable
+
+
+def _g_item_values(ex, st, args, kwargs, fn):
+    """ghost: the list of values the items stand for: the awaited result of an awaitable, the item itself otherwise"""
+    lt = ex.as_lt(st, args[0])
+    vals = [x.fn.data["result"] if isinstance(x, CoroV) else x for x in lt.concrete_items()]
+    return [(st, ex.alloc(st, ListObj(L.LT.of(vals))))]
+
+
+assumed.LIBRARY["ghost.item_values"] = _g_item_values
+from specs.ghost import item_values  # noqa: E402
+
+
+@contract("ahbicht.utility_functions:gather_if_necessary", prop=["C12"], name="GatherIfNecessaryBody",
+          key="ahbicht.utility_functions:gather_if_necessary#body")
+class GatherIfNecessaryBody:
+    """own body, for every list of length <= 4 and every pattern of awaitable / plain items (contents symbolic): the
+    result holds, position by position, the awaited value of an awaitable and the item itself otherwise.  Labelled
+    bounded (by length): the index bookkeeping through a loop-carried counter is outside the generic-iteration rule."""
+    cases = [dict(results_and_awaitable_results=_mixed_list(p)) for k in range(0, 5)
+             for p in _it.product([False, True], repeat=k)]
+    raises = {"Exception": None}
+
+    def post_positions_are_kept(results_and_awaitable_results, result):
+        return result == item_values(results_and_awaitable_results)
